@@ -682,6 +682,110 @@ def binop_sweep(ctx, res, scs, monitor, owner):
     res.distribution["kind-pairs-hit"] = cells
 
 
+
+def arith_scenarios(ctx, rng, full):
+    """C05 (c): arithmetic / concatenation / logic operators over operand kind pairs and boundary values"""
+    pairs = []
+    for k1 in NUM_KINDS:
+        for k2 in NUM_KINDS:
+            for a in operand_values(k1, full):
+                for b in operand_values(k2, full):
+                    pairs.append((a, b))
+    strs = [["string", x] for x in ("", "a", "ab c", "é")]
+    bools = [["bool", True], ["bool", False]]
+    for s_ in strs:
+        for k in NUM_KINDS + ["string", "bool", "time"]:
+            for b in (strs if k == "string" else bools if k == "bool" else operand_values(k, False)[:6]):
+                pairs.append((s_, b))
+                pairs.append((b, s_))
+    for a in bools:
+        for b in bools:
+            pairs.append((a, b))
+    for k in ("int64", "float64", "string", "time"):
+        for b in operand_values(k, False)[:2]:
+            pairs.append((bools[0], b))
+    if not full:
+        pairs = rng.shuffle(pairs)[:ctx.n(3000, 0) or len(pairs)]
+    scs = []
+    for i, (a, b) in enumerate(pairs):
+        la, lb = wrap_operand(rng, a), wrap_operand(rng, b)
+        ops = [{"op": "binop", "o": o, "l": la, "r": lb} for o in ARITH_OPS + ["&&", "||"]]
+        scs.append({"id": "arith-%d" % i, "ops": ops, "pair": [a, b]})
+    return scs
+
+
+def _wrap64(x):
+    x &= (1 << 64) - 1
+    return x - (1 << 64) if x >= (1 << 63) else x
+
+
+def monitor_arith(sc, g):
+    """the documented arithmetic on the cases a few lines of Python settle independently: signed integers inside
+    int64 without overflow, int/float promotion, `/` as the real quotient, string concatenation, && and ||"""
+    out = []
+    a, b = sc["pair"]
+    rs = g.get("res", [])
+    def val(i):
+        r = rs[i] if i < len(rs) else {}
+        return r.get("v")
+    ints = set(INT_RANGES)
+    flo = ("float64",)
+    if a[0] in ints and b[0] in ints:
+        x, y = int(a[1]), int(b[1])
+        for i, (sym, f) in enumerate([("+", lambda: x + y), ("-", lambda: x - y), ("*", lambda: x * y)]):
+            want = f()
+            if -(2 ** 63) <= want < 2 ** 63:
+                v = val(i)
+                if not v or v[0] != "int64" or int(v[1]) != want:
+                    out.append(("int-arith", "%s %s %s = %s, expected int64 %d" % (a, sym, b, v, want)))
+        if y != 0:
+            v = val(3)
+            want = _f64bits(float(x) / float(y))
+            if not v or v[0] != "float64" or int(v[1]) != want:
+                out.append(("real-quotient", "%s / %s = %s, expected float64 bits %d" % (a, b, v, want)))
+            v = val(4)
+            import math
+            want = int(math.fmod(x, y)) if abs(x) < 2 ** 53 and abs(y) < 2 ** 53 else None
+            if want is not None and (not v or v[0] != "int64" or int(v[1]) != want):
+                out.append(("int-mod", "%s %% %s = %s, expected %d" % (a, b, v, want)))
+        v = val(5)
+        if not v or int(v[1]) != _wrap64(x & y):
+            out.append(("bit-and", "%s & %s = %s" % (a, b, v)))
+        v = val(6)
+        if not v or int(v[1]) != _wrap64(x | y):
+            out.append(("bit-or", "%s | %s = %s" % (a, b, v)))
+    elif (a[0] in ints and b[0] in flo) or (a[0] in flo and b[0] in ints) or (a[0] in flo and b[0] in flo):
+        fx = float(int(a[1])) if a[0] in ints else _bits_f64(int(a[1]))
+        fy = float(int(b[1])) if b[0] in ints else _bits_f64(int(b[1]))
+        if fx == fx and fy == fy:
+            for i, f in enumerate([lambda: fx + fy, lambda: fx - fy, lambda: fx * fy, lambda: fx / fy if fy != 0 else None]):
+                try:
+                    want = f()
+                except OverflowError:
+                    want = None
+                if want is None or want != want:
+                    continue
+                v = val(i)
+                if not v or v[0] != "float64" or int(v[1]) != _f64bits(want):
+                    out.append(("float-promotion", "%s %s %s = %s, expected float64 %r" % (a, ARITH_OPS[i], b, v, want)))
+    elif a[0] == "string" and b[0] == "string":
+        v = val(0)
+        if not v or v[0] != "string" or v[1] != a[1] + b[1]:
+            out.append(("concat", "%s + %s = %s" % (a, b, v)))
+    elif a[0] == "string" and b[0] in ints:
+        v = val(0)
+        if not v or v[0] != "string" or v[1] != a[1] + str(int(b[1])):
+            out.append(("concat", "%s + %s = %s" % (a, b, v)))
+    elif a[0] in ints and b[0] == "string":
+        v = val(0)
+        if not v or v[0] != "string" or v[1] != str(int(a[1])) + b[1]:
+            out.append(("concat", "%s + %s = %s" % (a, b, v)))
+    elif a[0] == "bool" and b[0] == "bool":
+        v1, v2 = val(7), val(8)
+        if not v1 or v1[1] != (a[1] and b[1]) or not v2 or v2[1] != (a[1] or b[1]):
+            out.append(("logic", "%s && / || %s = %s %s" % (a, b, v1, v2)))
+    return out
+
 def run_c19(ctx):
     res = Result()
     res.rule = ("all ordered kind pairs inside the numeric family (12x12), strings, bools, times and a few cross-family pairs, values from a boundary-rich "
@@ -1045,6 +1149,199 @@ def run_c12(ctx):
     return res
 
 
+
+# ---- C17 / C05: the front end ------------------------------------------------------------------------
+
+def monitor_c17(sc, g, l):
+    """the three sentences of C17 on the real builder, with the model's recogniser (Syntax/*.lean) as the
+    independent oracle for "grammatical with valid literals". returns (signature, detail)"""
+    out = []
+    rs, ls = g.get("res", []), l.get("res", [])
+    before = None
+    twins = {}
+    rejected_seen = False
+    for i, (o, r) in enumerate(zip(sc["ops"], rs)):
+        m = ls[i] if i < len(ls) else {}
+        kind = o.get("op")
+        if kind == "build" and o.get("front"):
+            if "panic" in r:
+                out.append(("builder-panics", "op %d: %s on %r" % (i, r["panic"], o["text"][:200])))
+                continue
+            verdict = (m.get("verdict") or "").split(".")[-1]
+            names_now = sorted(x[1] for x in r.get("rules", []) if not x[4])
+            if verdict and verdict not in ("unmodelled", "fuel"):
+                model_ok = m.get("ok")
+                if r.get("ok") and not model_ok:
+                    out.append(("accepts-what-the-grammar-rejects", "op %d: BuildRuleFromResource returned nil; recogniser: %s (lexErrs %s, grammatical %s); text %r" % (
+                        i, verdict, m.get("lexErrs"), m.get("grammatical"), o["text"][:300])))
+                if not r.get("ok") and model_ok:
+                    out.append(("rejects-a-grammatical-text", "op %d: error although the text lexes, parses and has valid literals and fresh names; text %r" % (i, o["text"][:300])))
+            if not r.get("ok"):
+                rejected_seen = True
+                if r.get("nerr", 0) == -1:
+                    out.append(("error-is-no-reporter", "op %d" % i))
+                elif r.get("nerr", 0) < 1:
+                    out.append(("reporter-without-errors", "op %d" % i))
+                ek = r.get("errkinds") or {}
+                if verdict in ("lexical", "syntactic") and ek.get("lex", 0) + ek.get("syntax", 0) < 1:
+                    out.append(("syntax-problem-without-syntax-error", "op %d: recogniser says %s, reporter lists %s" % (i, verdict, ek)))
+                # what was loaded before is still there, unchanged
+                if before is not None:
+                    now = {x[1]: x[5] for x in r.get("rules", []) if not x[4]}
+                    for n, sn in before.items():
+                        if now.get(n) != sn:
+                            out.append(("rejected-text-changed-existing-rule", "op %d: rule %s" % (i, n)))
+            else:
+                # every rule of the text is in the knowledge base under its name with its description and salience
+                want = o.get("rules")
+                if want is not None:
+                    have = {x[1]: x for x in r.get("rules", []) if not x[4]}
+                    for w in want:
+                        x = have.get(w["name"])
+                        if x is None:
+                            out.append(("accepted-rule-missing", "op %d: rule %s" % (i, w["name"])))
+                        elif str(x[2]) != str(int(w["sal"])) or x[3] != w["desc"]:
+                            out.append(("accepted-rule-differs", "op %d: rule %s has salience %s description %r, declared %s %r" % (i, w["name"], x[2], x[3], w["sal"], w["desc"])))
+            if o.get("expect_ok") and not r.get("ok"):
+                out.append(("rejects-a-grammatical-text", "op %d: a generated valid document was rejected: %r" % (i, o["text"][:300])))
+            before = {x[1]: x[5] for x in r.get("rules", []) if not x[4]}
+        if kind == "inst" and rejected_seen and not r.get("ok"):
+            out.append(("instance-creation-fails-after-rejected-text", "op %d" % i))
+        if kind == "store" and rejected_seen and not r.get("ok"):
+            out.append(("store-fails-after-rejected-text", "op %d" % i))
+        if kind == "exec" and o.get("twin") and isinstance(r, dict) and "store" in r:
+            view = (json.dumps(r.get("out")), json.dumps(r.get("store")), [e[2] for e in (r.get("trace") or []) if e[0] == "x"])
+            if o["twin"] in twins:
+                j, other, rules_then = twins[o["twin"]]
+                same_rules = True
+                # comparable when the knowledge base holds the same rules as when the earlier instance was made
+                inst_rules = {}
+                for oo, rr in zip(sc["ops"], rs):
+                    if oo.get("op") == "inst" and rr.get("ok"):
+                        inst_rules[oo["as"]] = sorted(x[5] for x in rr.get("rules", []) if not x[4])
+                a, b = sc["ops"][j]["inst"], o["inst"]
+                if inst_rules.get(a) == inst_rules.get(b) and o.get("det") and other != view:
+                    out.append(("old-rules-behave-differently-after-rejected-text", "ops %d/%d: fired %s vs %s" % (j, i, other[2], view[2])))
+            else:
+                twins[o["twin"]] = (i, view, None)
+    return out
+
+
+def front_sweep(ctx, res, scs, prop, oracle=True):
+    for i in range(0, len(scs), 1500):
+        chunk = scs[i:i + 1500]
+        out = pl.correspond(chunk, jobs=ctx.jobs)
+        for sc, g, l, status, detail in out:
+            res.evaluations += 1
+            if status == "unmodelled":
+                res.unmodelled += 1
+                continue
+            if status == "crash":
+                res.corr_details.append({"id": sc["id"], "status": status, "detail": detail[:500], "scenario": sc})
+                res.corr_broken = True
+                continue
+            res.corr_compared += 1
+            if status == "mismatch":
+                res.corr_details.append({"id": sc["id"], "status": status, "detail": detail[:500], "scenario": sc})
+                res.corr_broken = True
+            yield sc, g, l, status
+
+
+def run_c17(ctx):
+    import gen_syntax
+    res = Result()
+    res.rule = ("a valid generated document (any rendering: keyword case, literal notations, spacing, comments) is loaded and instantiated; then a document "
+                "broken by 0-3 token mutations (delete, duplicate, swap, replace, insert, drop a range, reserved word as identifier) or character mutations "
+                "(delete, insert, replace, swap, truncate; illegal characters, quotes, brackets) is offered; monitors: accept/reject against the model's "
+                "recogniser (Lean lexer+parser+literal checks), error is a GruleErrorReporter with >= 1 error (a lexer/parser one for syntax problems), "
+                "accepted rules present with name/description/salience, rejected text leaves the rules unchanged, instances/store/load/run keep working "
+                "and the old rules behave as on the instance made before; then a valid document re-using the mutant's sub-expressions; "
+                "non-trivial = distinct mutated texts that were rejected")
+    rng = Rng(ctx.seed * 7368787 + 17)
+    scs = corpus(ctx.prop) + [gen_syntax.c17_scenario(rng.fork(), "c17-%d-%d" % (ctx.seed, i)) for i in range(ctx.n(1500, 30000))]
+    for sc, g, l, status in front_sweep(ctx, res, scs, "C17"):
+        for o, r, m in zip(sc["ops"], g.get("res", []), l.get("res", [])):
+            if o.get("op") == "build" and "mutations" in o:
+                v = (m.get("verdict") or "?").split(".")[-1]
+                res.count("verdict:" + v)
+                for mu in o["mutations"]:
+                    res.count("mutation:" + mu.split("[")[0].split(" ")[0])
+                if not r.get("ok") and o["text"] not in res._distinct:
+                    res._distinct.add(o["text"])
+                    res.distinct_nontrivial += 1
+                    if len(res.samples) < 5:
+                        res.samples.append({"mutations": o["mutations"], "verdict": v, "text": o["text"][:300]})
+        for sig, det in monitor_c17(sc, g, l):
+            res.violations.append({"signature": "monitor:" + sig, "detail": det, "scenario": sc})
+    # library histories with rejected resources between other operations (third sentence, longer histories)
+    sub = run_lib(ctx, "C17")
+    res.evaluations += sub.evaluations
+    res.corr_compared += sub.corr_compared
+    res.corr_details += sub.corr_details
+    res.corr_broken = res.corr_broken or sub.corr_broken
+    res.violations += sub.violations
+    for k, v in sub.distribution.items():
+        res.count("lib:" + k, v)
+    return res
+
+
+def run_c05(ctx):
+    import gen_syntax
+    res = Result()
+    res.rule = ("(a) engine scenarios (typed expression trees over all operators, operand kinds, built-ins, fact methods incl. variadic, selectors) whose rule "
+                "texts are re-rendered with every literal notation (dec/hex/octal ints, decimal/exponent/hex floats, both quote styles and every escape form, "
+                "any-case booleans and keywords), arbitrary whitespace/comments and redundant parentheses: the real engine's runs against the model run on the "
+                "model's own parse of the text (correspondence), against the from-scratch semantics (oracle), and the model's parse against the generator's "
+                "tree (astEq); (b) flat operator chains without parentheses grouped by the published precedence table (three-way: published table, model "
+                "parser, real parser via exact snapshots) and evaluated; (c) the operator grid: all 15 operators x operand kinds x boundary values against the "
+                "regenerated tables; non-trivial = distinct rule texts executed with at least one firing")
+    rng = Rng(ctx.seed * 15485863 + 5)
+    n = ctx.n(700, 12000)
+    scs = corpus(ctx.prop)
+    for i in range(n):
+        r = rng.fork()
+        if i % 3 == 2:
+            scs.append(gen_syntax.prec_scenario(r, "c05p-%d-%d" % (ctx.seed, i)))
+        else:
+            scs.append(gen_syntax.c05_scenario(r, "c05-%d-%d" % (ctx.seed, i), r.choice(["stable", "stable", "wild"])))
+    for sc, g, l, status in front_sweep(ctx, res, scs, "C05"):
+        fired = False
+        for o, r, m in zip(sc["ops"], g.get("res", []), l.get("res", [])):
+            if o.get("op") == "build" and o.get("front"):
+                if m.get("astEq") is False:
+                    res.violations.append({"signature": "monitor:grouping-differs-from-published-table", "scenario": sc,
+                                           "detail": "the parse of %r is not the tree the published precedence/associativity gives" % o["text"][:300]})
+                if o.get("expect_ok") and not r.get("ok"):
+                    res.violations.append({"signature": "monitor:valid-expression-rejected", "scenario": sc, "detail": o["text"][:300]})
+                res.count("builds")
+            if o.get("op") == "exec" and any(e[0] == "x" for e in (r.get("trace") or [])):
+                fired = True
+        if fired:
+            key = sc["ops"][0].get("text")
+            if key not in res._distinct:
+                res._distinct.add(key)
+                res.distinct_nontrivial += 1
+                if len(res.samples) < 4:
+                    res.samples.append({"text": key[:400]})
+        if not sc.get("no_oracle"):
+            for i2, kind, det in pl.compare_spec(sc, g, l):
+                res.violations.append({"signature": "oracle:" + kind, "detail": det, "scenario": sc, "op_index": i2})
+    # (c) operator grid
+    grid = Result()
+    scs = arith_scenarios(ctx, Rng(ctx.seed * 2750159 + 55), ctx.tier == "thorough")
+    for i in range(0, len(scs), 20000):
+        binop_sweep(ctx, grid, scs[i:i + 20000], monitor_arith, "C05")
+    res.evaluations += grid.evaluations
+    res.corr_compared += grid.corr_compared
+    res.corr_details += grid.corr_details
+    res.corr_broken = res.corr_broken or grid.corr_broken
+    res.unmodelled += grid.unmodelled
+    res.violations += grid.violations
+    for k, v in grid.distribution.items():
+        res.count("grid:" + k, v)
+    res.count("grid:operand-pairs", len(scs))
+    return res
+
 PROPS = {}
 
 
@@ -1069,3 +1366,5 @@ prop("C11", run=lambda ctx: run_engine_generic(ctx))
 prop("C13", run=lambda ctx: run_engine_generic(ctx))
 prop("C14", run=lambda ctx: run_engine_generic(ctx, mix=(("faulty", 6), ("wild", 3), ("stable", 1))))
 prop("C08", run=lambda ctx: run_engine_generic(ctx, owners=["C08", "C11"]))
+prop("C17", run=run_c17)
+prop("C05", run=run_c05)
